@@ -86,14 +86,16 @@ def configs(tier):
     out = []
     if quick:
         combos = [('flat', 2, 'int16', 'int', 'slice'), ('array', 1, 'float32', 'float', 'slice'),
-                  ('flat', 2, 'float32', 'int', 'int'), ('array', 1, 'int16', 'float', 'list2')]
+                  ('flat', 2, 'float32', 'int', 'int'), ('array', 1, 'int16', 'float', 'list2'),
+                  ('array', 1, 'uint16', 'float', 'int')]
     else:
         combos = [('flat', 2, 'int16', 'int', 'slice'), ('flat', 2, 'float32', 'float', 'slice'),
                   ('flat', 2, 'float64', 'int', 'int'), ('flat', 2, 'int16', 'float', 'list2'),
                   ('array', 1, 'float32', 'float', 'slice'), ('array', 1, 'int16', 'int', 'int'),
                   ('array', 1, 'float64', 'float', 'list2'), ('npy', 1, 'int16', 'int', 'slice'),
                   ('npy', 1, 'float32', 'float', 'list2'), ('cbin', 1, 'int16', 'float', 'slice'),
-                  ('cbin', 1, 'float32', 'int', 'slice')]
+                  ('cbin', 1, 'float32', 'int', 'slice'), ('array', 1, 'uint16', 'float', 'int'),
+                  ('flat', 2, 'uint8', 'int', 'slice')]
     for ci, (backend, K, dtype, sk, item) in enumerate(combos):
         # thorough: depth 3 on the first four combinations, depth 2 on the others
         D = 2 if (quick or ci >= 4) else 3
